@@ -180,6 +180,8 @@ fn rebuild(ty: usize, p: [f64; 3]) -> Option<Dist> {
 /// 0 padding timeout, 1 blocking duration, 2 limit, 3 counter A value, 4 counter B value, 5 timer duration, 6 blocking timeout
 pub fn literal_with_dist(pos: usize, d: Dist) -> Machine {
     use Event::*;
+    // positions NPOS..2*NPOS: the same, with the state that carries the distribution being a sink (no transitions)
+    let (sink, pos) = (pos >= NPOS, pos % NPOS);
     let t: EnumMap<Event, Vec<Trans>> = enum_map! { NormalSent => vec![Trans(1, 1.0)], NormalRecv => vec![Trans(0, 0.5), Trans(1, 0.25)], _ => vec![] };
     let (a, ctr): (Option<Action>, (Option<Counter>, Option<Counter>)) = match pos {
         0 => (Some(Action::SendPadding { bypass: false, replace: false, timeout: d, limit: None }), (None, None)),
@@ -194,11 +196,15 @@ pub fn literal_with_dist(pos: usize, d: Dist) -> Machine {
         8 => (None, (Some(Counter::new_dist(Operation::Decrement, d)), Some(Counter::new_dist(Operation::Increment, c(1.0))))),
         9 => (Some(Action::SendPadding { bypass: false, replace: false, timeout: c(1.0), limit: Some(c(2.0)) }), (Some(Counter::new(Operation::Increment)), Some(Counter::new_dist(Operation::Set, d)))),
         10 => (Some(Action::BlockOutgoing { bypass: false, replace: false, timeout: c(1.0), duration: c(1.0), limit: Some(d) }), (Some(Counter::new_copy(Operation::Set)), None)),
+        // a distribution carried by a counter whose copy flag is set (public fields): never sampled, still part of the machine
+        12 => (None, (Some(Counter { operation: Operation::Increment, dist: Some(d), copy: true }), None)),
+        13 => (Some(Action::Cancel { timer: Timer::Internal }), (Some(Counter::new(Operation::Set)), Some(Counter { operation: Operation::Decrement, dist: Some(d), copy: true }))),
         _ => (Some(Action::UpdateTimer { replace: false, duration: c(1.0), limit: Some(d) }), (None, Some(Counter::new_copy(Operation::Set)))),
     };
-    Machine { allowed_padding_packets: 1, max_padding_frac: 0.5, allowed_blocked_microsec: 10, max_blocking_frac: 0.5, states: vec![st_map(t.clone(), None, (None, None)), st_map(t, a, ctr)] }
+    let t1 = if sink { enum_map! { _ => vec![] } } else { t.clone() };
+    Machine { allowed_padding_packets: 1, max_padding_frac: 0.5, allowed_blocked_microsec: 10, max_blocking_frac: 0.5, states: vec![st_map(t, None, (None, None)), st_map(t1, a, ctr)] }
 }
-pub const NPOS: usize = 12;
+pub const NPOS: usize = 14;
 pub fn literal_with_fracs(pf: f64, bf: f64) -> Machine {
     let mut m = literal_with_dist(0, c(1.0));
     m.max_padding_frac = pf;
@@ -268,8 +274,10 @@ pub fn wellformed(m: &Machine) -> Result<(), String> {
                 }
                 sum += t.1 as f64;
             }
-            // soundness only: one f32 ulp of slack per addend, so rounding in an f32 sum cannot raise an alarm
-            if sum > 1.0 + (v.len() as f64) * (f32::EPSILON as f64) {
+            // `sum` is exact (f64 holds the sum of a few f32 values exactly). An implementation summing in f32 rounds
+            // each partial sum by at most half an ulp of [1,2), i.e. 2^-24: an exact sum above 1 + (len-1) * 2^-24 is
+            // above 1 however it is accumulated; below that (e.g. 1 + 1e-9) it may legitimately round to exactly 1
+            if sum > 1.0 + (v.len().saturating_sub(1) as f64) * (f32::EPSILON as f64 / 2.0) {
                 return Err(format!("state {si} event {e:?}: probabilities sum to {sum} > 1"));
             }
         }
@@ -376,7 +384,7 @@ pub fn candidates(q: bool) -> Vec<Cand> {
     for ty in 0..11 {
         for slot in 0..5 {
             for x in &cs {
-                for pos in 0..NPOS {
+                for pos in 0..2 * NPOS {
                     if let Some(d) = dist_with(ty, slot, *x) {
                         v.push(Cand { label: format!("dist family {ty} slot {slot} = {x:?} in position {pos}"), m: literal_with_dist(pos, d) });
                     }
@@ -438,7 +446,7 @@ pub fn candidates(q: bool) -> Vec<Cand> {
     }
     // limit distributions that must be validated too, invalid dists hidden behind every optional field
     let bad = Dist { dist: DistType::Uniform { low: 2.0, high: 1.0 }, start: 0.0, max: 0.0 };
-    for pos in 0..NPOS {
+    for pos in 0..2 * NPOS {
         v.push(Cand { label: format!("invalid Uniform(low>high) in position {pos}"), m: literal_with_dist(pos, bad) });
     }
     v
